@@ -166,3 +166,17 @@ Print Assumptions c03_server_single_status.
 Print Assumptions c03_client_no_trailers.
 Print Assumptions c03_heads.
 Print Assumptions c03_encoder_never_panics.
+
+(* the constants written by hand in the model equal the ones regenerated from the Rust source
+   (Gen/ConstTables.v, rewritten by rs2v on every run) *)
+From Verif Require Gen.ConstTables Proofs.ConstTies Model.Encoder Model.Decoder Model.WebServer.
+Import Gen.ConstTables.
+Theorem c03_constants_tied :
+  Frame.HEADER_SIZE = codec_header_size /\
+  Decoder.DEFAULT_MAX_RECV_MESSAGE_SIZE = codec_default_max_recv_message_size /\
+  Encoder.DEFAULT_MAX_SEND_MESSAGE_SIZE = codec_default_max_send_message_size /\
+  Encoder.DEFAULT_CODEC_BUFFER_SIZE = codec_default_buffer_size /\
+  Encoder.DEFAULT_YIELD_THRESHOLD = codec_default_yield_threshold /\
+  Encoder.val_application_grpc = grpc_content_type.
+Proof. exact ConstTies.codec_constants_tied. Qed.
+Print Assumptions c03_constants_tied.
